@@ -60,6 +60,10 @@ struct handle { static inline int copies = 0, next_id = 0; int id = 0, weight = 
   handle& operator=(const handle& o) { id = o.id; weight = o.weight; ++copies; return *this; } handle& operator=(handle&& o) noexcept { id = o.id; weight = o.weight; o.id = -1; return *this; } };
 static_assert(std::is_trivially_destructible_v<handle>);
 constexpr nterm<handle> hl("hl"), hi("hi");
+struct mlist { static inline long copies = 0; std::vector<counted> items; mlist() = default; mlist(mlist&&) = default; mlist& operator=(mlist&&) = default;
+      mlist(const mlist& o) : items(o.items) { ++copies; } mlist& operator=(const mlist& o) { items = o.items; ++copies; return *this; }
+      void push_back(const counted& c) { items.push_back(c); } void emplace_back(counted&& c) { items.emplace_back(std::move(c)); } };
+constexpr nterm<mlist> ml("ml"); constexpr nterm<counted> mi("mi");
 static int extra() {
   int bad = 0;
   { static const parser q(top, terms('a', ','), nterms(top, mid, leaf), rules(
@@ -86,6 +90,20 @@ static int extra() {
       if (got != std::to_string(n) || !L.live.empty() || L.moved_from_reads != before.moved_from_reads || L.double_destroy != 0) {
         ++bad; std::cout << "FAIL right-recursive list of " << n << " values: result " << got << ", alive " << L.live.size() << ", moved-from reads " << (L.moved_from_reads - before.moved_from_reads) << "\n"; L.live.clear(); }
     } }
+  // the append helpers with the container AFTER the element (right-recursive lists): the container is moved through, never copied
+  {
+    static const parser q1(ml, terms('1', ','), nterms(ml, mi), rules(
+      ml() >= ftors::create<mlist>{}, ml(mi, ',', ml) >= ftors::emplace_back<3, 1>{}, mi('1') >= [](skip) { return counted(1); }));
+    static const parser q2(ml, terms('1', ','), nterms(ml, mi), rules(
+      ml() >= ftors::create<mlist>{}, ml(mi, ',', ml) >= ftors::push_back<3, 1>{}, mi('1') >= [](skip) { return counted(1); }));
+    mlist::copies = 0; counted::copies = 0;
+    auto r1 = q1.parse(string_buffer("1,1,1,1,1,1,"));
+    if (!(r1 && r1->items.size() == 6)) { ++bad; std::cout << "FAIL emplace_back<3,1> list: wrong result\n"; }
+    if (mlist::copies != 0 || counted::copies != 0) { ++bad; std::cout << "FAIL emplace_back<3,1> copied the container " << mlist::copies << " times and elements " << counted::copies << " times (expected 0 / 0)\n"; }
+    mlist::copies = 0; counted::copies = 0;
+    auto r2 = q2.parse(string_buffer("1,1,1,1,1,1,"));
+    if (!(r2 && r2->items.size() == 6)) { ++bad; std::cout << "FAIL push_back<3,1> list: wrong result\n"; }
+    if (mlist::copies != 0 || counted::copies != 6) { ++bad; std::cout << "FAIL push_back<3,1> copied the container " << mlist::copies << " times and elements " << counted::copies << " times (expected 0 / 6: one per push_back)\n"; } }
   // trivially destructible value types with cstring_buffer: the value stack is then a fixed-capacity cvector; still no copy may be made
   { static const parser q(hl, terms('x', ','), nterms(hl, hi), rules(
       hi('x') >= [](skip) { return handle(++handle::next_id, 1); },
